@@ -79,8 +79,8 @@ class IntT(T):
 
 
 class RealT(T):
-    def __init__(self, lo=None, hi=None, np=False):
-        self.lo, self.hi, self.np = lo, hi, np
+    def __init__(self, lo=None, hi=None, np=False, integral=False):
+        self.lo, self.hi, self.np, self.integral = lo, hi, np, integral
 
     def sort(self):
         return z3.RealSort()
@@ -89,7 +89,11 @@ class RealT(T):
         return VReal(term, self.np)
 
     def family(self, name, ctx, psorts):
-        f = _uf(ctx, name, psorts, z3.RealSort())
+        if self.integral:       # a float holding an integer value: ToReal of an integer symbol
+            g = _uf(ctx, name, psorts, z3.IntSort())
+            f = lambda p: z3.ToReal(g(p))
+        else:
+            f = _uf(ctx, name, psorts, z3.RealSort())
         ps = [z3.Const(f"p{i}", s) for i, s in enumerate(psorts)]
         cs = []
         if self.lo is not None:
